@@ -545,6 +545,8 @@ def run_file(res, origin, raw, desc, rng, per_file):
             continue
         S2 = _snap(o2)
         res.count("roundtrips_compared")
+        if res.counters["roundtrips_compared"] % 701 == 1:
+            res.sample({"file": origin, "attribute": e.path, "new_value": repr(e.value)[:100], "saved_before_looking": save_first})
         d = snapshot.diff(build.norm(S1, "before"), build.norm(S2, "after"))
         if d:
             first = d[0]
@@ -621,7 +623,7 @@ def run_shard(spec_, res):
     for name, msg in monitors.take_failures():
         res.violation(f"C06:ambient:{name}", msg, {"monitor": name})
     if spec_["shard"] == 0:
-        res.sample({"file": "fixture:sampler.sunsynth", "attribute": "/module/payload/volume_envelope/points[1]", "new_value": [9, 12345]})
+        pass
 
 
 def finalize(merged, tier):
